@@ -1178,6 +1178,39 @@ func ringRule(c *Ctx, ruleID string) {
 		})
 		L.Check(!esc, ruleID, "ringBuffer.Push", "stripe = pool.Get(); stripe.Push(item); pool.Put(stripe) on every path, not stored elsewhere", "the stripe escapes the Get/Put window", fn.Pos())
 	})
+	c.Group(ruleID, "ringStripe.data#empty", func() {
+		// every value assigned to ringStripe.data is an EMPTY batch or the batch plus the pushed item: a
+		// fresh make(.., 0, capa), the old batch cut to [:0], or append(s.data, item). A batch that starts
+		// with a zeroed slot feeds a phantom access of key 0 into the sketch with every hand-over.
+		n := 0
+		var bad []string
+		var pos token.Pos
+		for _, fn := range P.SrcFuncs {
+			if fn.Pkg != P.Pkgs["ristretto"] {
+				continue
+			}
+			tb := newTB(fn)
+			for _, st := range fieldStoresIn(fn, "ringStripe", "data") {
+				n++
+				okv := false
+				switch v := st.Val.(type) {
+				case *ssa.MakeSlice:
+					okv = isConst(v.Len, "0")
+				case *ssa.Slice:
+					okv = v.Low == nil && v.High != nil && isConst(v.High, "0") && tb.T(v.X).String() == "fld[data](p[0])"
+				case *ssa.Call:
+					if b, isB := v.Call.Value.(*ssa.Builtin); isB && b.Name() == "append" {
+						okv = strings.HasPrefix(tb.T(v).String(), "call[append](fld[data](p[0]),")
+					}
+				}
+				if !okv {
+					bad = append(bad, fname(fn)+": s.data = "+tb.T(st.Val).String())
+					pos = st.Pos()
+				}
+			}
+		}
+		L.Check(len(bad) == 0 && n >= 4, ruleID, "ringStripe.data#empty", fmt.Sprintf("%d assignments to a stripe's batch: empty make, [:0], or append of the pushed item", n), "a stripe's batch does not start empty: "+strings.Join(bad, "; ")+" (phantom key-0 accesses reach the frequency sketch; real accesses are displaced)", pos)
+	})
 	c.Group(ruleID, "ringStripe.Push", func() {
 		fn := P.Fn("ristretto", "ringStripe", "Push")
 		L.Analysed(fname(fn))
